@@ -44,9 +44,12 @@ var runeClasses = map[string][]rune{
 	"wide":      []rune("世界你好日本語テスト한국어가나다라마漢字中文測試ＡＢＣ１２３"),
 	"combining": []rune("̧́̀̈̃⃗"),
 	"astral":    []rune("😀😁🙂🚀🎉𝔘𝔫𝔦𝐀𝐁𠀀𠀁🤖🧪"),
+	// characters people type that Go's unicode.IsPrint rejects: ideographic and no-break spaces,
+	// the joiners of emoji and Indic/Persian text, soft hyphen, private-use glyphs (powerline)
+	"space-format-private": []rune("\u3000\u00a0\u202f\u2003\u200d\u200c\u00ad\ue0b0\uf8ff\U000f0001"),
 }
 
-var runeClassNames = []string{"ascii", "latin1", "bmp", "wide", "combining", "astral"}
+var runeClassNames = []string{"ascii", "latin1", "bmp", "wide", "combining", "astral", "space-format-private"}
 
 func genText(r *rand.Rand, classes []string, n int) string {
 	var sb strings.Builder
@@ -187,6 +190,11 @@ func chunk(text, delivery string, cuts []int) []string {
 }
 
 func classOf(r rune) string {
+	for _, x := range runeClasses["space-format-private"] {
+		if x == r {
+			return "space-format-private"
+		}
+	}
 	switch {
 	case r < 0x80:
 		return "ascii"
@@ -195,7 +203,7 @@ func classOf(r rune) string {
 	case r > 0xffff:
 		return "astral"
 	}
-	for _, n := range []string{"wide", "combining"} {
+	for _, n := range []string{"wide", "combining", "space-format-private"} {
 		for _, x := range runeClasses[n] {
 			if x == r {
 				return n
